@@ -4,8 +4,8 @@
    request against the real HTTP servers. *)
 EXTENDS Paths, Json, IOUtils
 Emit == IF done
-        THEN Serialize(ToJson([api |-> api.api, transport |-> api.transport, base |-> api.base, suffix |-> api.suffix,
-                               effect |-> api.effect, name |-> name, predicted |-> result]) \o "\n", "behaviours.ndjson",
+        THEN Serialize(ToJson([api |-> api.api, transport |-> api.transport, base |-> api.base, suffix |-> api.suffix, store |-> api.store,
+                               effect |-> api.effect, entry |-> entry, hist |-> hist, name |-> name, predicted |-> result]) \o "\n", "behaviours.ndjson",
                  [format |-> "TXT", charset |-> "UTF-8", openOptions |-> <<"WRITE", "CREATE", "APPEND">>]).exitValue = 0
         ELSE TRUE
 =============================================================================
